@@ -22,7 +22,8 @@ RULE = ("ints: 0, +-(10^k-2..10^k+2) for k=0..18, int64 extremes, every permutat
         "of a power of ten, an int64 extreme, a sign, or a batch with >= 2 widths (ints); >= 2 rows or an exponent or >= 16 "
         "digits (floats)")
 EXHAUSTIVE = {"quick": False, "thorough": False}
-MODEL_OPS = {"fmt", "parse", "parse1", "intlists", "splitparse", "fparse", "column_ints", "parse_missing", "froundtrip"}
+MODEL_OPS = {"fmt", "parse", "parse1", "intlists", "splitparse", "fparse", "column_ints", "parse_missing", "froundtrip",
+             "int_to_str", "join", "split", "boollists", "fparse_missing", "reject"}
 PARALLEL = 0
 ASSUMPTIONS = [
     "int64 arithmetic is modelled as unbounded Int with wrap64 applied to the result (NumPy ops are ring homomorphisms mod 2^64)",
@@ -272,6 +273,38 @@ def cases(tier, rng):
     for _ in range(1500 if big else 40):
         rows = [_float_text(rng) for _ in range(rng.choice([2, 3, 4]))]
         yield {"op": "fbatch", "rows": rows}
+    # ---- the remaining public entry points of strops and the writers/parsers built on them
+    for v in S + [2 ** 31, 10 ** 10 - 1]:
+        yield {"op": "int_to_str", "n": v}
+    yield {"op": "fmt", "ns": []}                                   # the empty batch
+    yield {"op": "parse", "rows": []}
+    yield {"op": "intlists", "rows": [[], []], "keep_last": False}   # every row empty
+    yield {"op": "intlists", "rows": [[]], "keep_last": True}
+    for _ in range(300 if big else 40):
+        strs = ["".join(rng.choice("ab,;1") for _ in range(rng.choice([0, 1, 2, 5]))) for _ in range(rng.choice([1, 2, 3, 6]))]
+        yield {"op": "join", "strs": strs, "sep": rng.choice([",", "\t", ";"]), "keep_last": rng.random() < 0.5}
+        text = "".join(rng.choice("12,;,;-") for _ in range(rng.choice([0, 1, 3, 8, 15])))
+        yield {"op": "split", "text": text, "seps": rng.choice([[","], [";"], [",", ";"], [";", ",", "-"]]), "as_list": rng.random() < 0.7}
+        rows = [[rng.randint(0, 1) for _ in range(rng.choice([0, 1, 2, 5]))] for _ in range(rng.choice([1, 2, 4]))]
+        if rng.random() < 0.3:
+            rows = [[rng.randint(0, 9) for _ in r] for r in rows]
+        yield {"op": "boollists", "rows": rows}
+        if all(all(v < 2 for v in r) and r for r in rows):
+            yield {"op": "boolcolumn", "lists": rows, "flags": [rng.randint(0, 1) for _ in rows]}
+        frows = [rng.choice(["", ".", _float_text(rng), _float_text(rng)]) for _ in range(rng.choice([1, 2, 3, 6, 10]))]
+        yield {"op": "fparse_missing", "rows": frows}
+        irows = [rng.choice(["", ".", _int_text(rng), _int_text(rng)]) for _ in frows]
+        yield {"op": "optcolumn", "ints": irows, "floats": frows}
+        k = rng.choice([1, 2, 3])
+        yield {"op": "matrix_parse", "cells": [[_float_text(rng) for _ in range(k)] for _ in range(rng.choice([1, 2, 4]))],
+               "names": rng.random() < 0.6, "sep": rng.choice(["\t", ","])}
+    # texts that are not numbers (lone sign, lone dot, no digit, two dots): reported, never read as a value
+    for bad, kind in [("-", "int"), ("+", "int"), ("-", "float"), ("+", "float"), (".", "float"), ("-.", "float"), ("+.", "float"),
+                      ("1.2.3", "float"), ("..", "float"), ("-.e3", "float"), ("1..5e2", "float")]:
+        for _ in range(3 if big else 1):
+            rows = [(_int_text(rng) if kind == "int" else _float_text(rng)) for _ in range(rng.choice([0, 1, 3]))]
+            rows.insert(rng.randrange(len(rows) + 1), bad)
+            yield {"op": "reject", "kind": kind, "rows": rows}
     # ---- the same functions on fresh, not yet materialised views (row selections / reorderings / slices of a larger array)
     def view():
         return {"kind": rng.choice(VIEW_KINDS), "seed": rng.randrange(10 ** 6)}
@@ -364,6 +397,10 @@ def nontrivial(c):
         ns = [v for r in c["rows"] for v in r]
     elif op == "column":
         ns = c["ints"]
+    elif op in ("join", "split", "boollists", "boolcolumn", "fparse_missing", "optcolumn", "matrix_parse", "reject"):
+        return True
+    elif op == "int_to_str":
+        ns = [c["n"]]
     elif op == "matrix":
         ns = [v for r in c["rows"] for v in r]
     elif op == "parse_missing":
@@ -435,6 +472,80 @@ def _column_impl(c):
     back = buf.get_data()
     return {"lines": text.split("\n"), "a": [int(v) for v in back.a], "x": [f2h(v) for v in back.x],
             "l": [[int(v) for v in r] for r in back.l]}
+
+
+def _matrix_text(c):
+    k = len(c["cells"][0])
+    cols = ["c%d" % i for i in range(k)]
+    head = (["name"] if c["names"] else []) + cols
+    lines = [c["sep"].join(head)]
+    for i, r in enumerate(c["cells"]):
+        lines.append(c["sep"].join((["r%d" % i] if c["names"] else []) + r))
+    return "\n".join(lines) + "\n"
+
+
+_BOOLBUF = None
+_OPTBUF = None
+
+
+def _boolcolumn_impl(c):
+    """bool and List[bool] columns written and read back through a DelimitedBuffer"""
+    global _BOOLBUF
+    from npstructures import RaggedArray
+    if _BOOLBUF is None:
+        from typing import List
+        from bionumpy.bnpdataclass import bnpdataclass
+        from bionumpy.io.delimited_buffers import DelimitedBuffer
+
+        @bnpdataclass
+        class BoolRow:
+            b: bool
+            l: List[bool]
+
+        class BoolRowBuffer(DelimitedBuffer):
+            dataclass = BoolRow
+
+        _BOOLBUF = (BoolRow, BoolRowBuffer)
+    Row, B = _BOOLBUF
+    data = Row(np.array(c["flags"], dtype=bool), RaggedArray([[bool(v) for v in r] for r in c["lists"]]))
+    text = bytes(np.asarray(B.from_data(data).raw(), dtype=np.uint8)).decode("ascii")
+    back = B.from_raw_buffer(np.frombuffer(text.encode("ascii"), dtype=np.uint8).copy()).get_data()
+    return {"lines": text.split("\n"), "b": [int(v) for v in back.b], "l": [[int(v) for v in r] for r in back.l]}
+
+
+def _optcolumn_impl(c):
+    """Optional[int] / Optional[float] columns ('.' or empty = missing) read through a DelimitedBuffer, and the Optional[int]
+    column written back"""
+    global _OPTBUF
+    if _OPTBUF is None:
+        from typing import Optional
+        from bionumpy.bnpdataclass import bnpdataclass
+        from bionumpy.io.delimited_buffers import DelimitedBuffer
+
+        @bnpdataclass
+        class OptRow:
+            o: Optional[int]
+            f: Optional[float]
+            s: str
+
+        class OptRowBuffer(DelimitedBuffer):
+            dataclass = OptRow
+
+        @bnpdataclass
+        class OptOut:
+            o: Optional[int]
+            s: str
+
+        class OptOutBuffer(DelimitedBuffer):
+            dataclass = OptOut
+
+        _OPTBUF = (OptRowBuffer, OptOut, OptOutBuffer)
+    B, Out, OB = _OPTBUF
+    text = "".join("%s\t%s\tz\n" % (i, f) for i, f in zip(c["ints"], c["floats"]))
+    back = B.from_raw_buffer(np.frombuffer(text.encode("ascii"), dtype=np.uint8).copy()).get_data()
+    o = [int(v) for v in back.o]
+    written = bytes(np.asarray(OB.from_data(Out(np.array(o, dtype=np.int64), ["z"] * len(o))).raw(), dtype=np.uint8)).decode("ascii")
+    return {"o": o, "f": [("missing" if math.isnan(v) else f2h(v)) for v in back.f], "written": written.split("\n")}
 
 
 _INTBUF = None
@@ -557,6 +668,34 @@ def impl(c):
         if op == "splitparse":
             from bionumpy.encoded_array import as_encoded_array
             return [int(v) for v in st.str_to_int(st.split(as_encoded_array(c["text"]), sep=","))]
+        if op == "int_to_str":
+            r = st.int_to_str(c["n"])
+            return [str(r)] if str(r) == r.to_string() else {"err": "str-differs-from-to_string"}
+        if op == "join":
+            from bionumpy.encoded_array import as_encoded_array
+            return st.join(as_encoded_array(c["strs"]), sep=c["sep"], keep_last=c["keep_last"]).to_string()
+        if op == "split":
+            from bionumpy.encoded_array import as_encoded_array
+            sep = c["seps"] if (c.get("as_list") or len(c["seps"]) > 1) else c["seps"][0]
+            return _rows(st.split(as_encoded_array(c["text"]), sep=sep))
+        if op == "boollists":
+            from npstructures import RaggedArray
+            return _rows(st.int_lists_to_strings(RaggedArray(c["rows"]).astype(int), sep=""))
+        if op == "boolcolumn":
+            return _boolcolumn_impl(c)
+        if op == "fparse_missing":
+            return [("missing" if math.isnan(v) else f2h(v)) for v in st.str_to_float_with_missing(c["rows"])]
+        if op == "optcolumn":
+            return _optcolumn_impl(c)
+        if op == "matrix_parse":
+            from bionumpy.io.matrix_dump import parse_matrix
+            m = parse_matrix(_matrix_text(c), field_type=float, rowname_type=str if c["names"] else None, sep=c["sep"])
+            return {"data": [[f2h(v) for v in r] for r in m.data], "rows": None if m.row_names is None else _rows(m.row_names),
+                    "cols": _rows(m.col_names)}
+        if op == "reject":
+            if c["kind"] == "int":
+                return [int(v) for v in st.str_to_int(c["rows"])]
+            return [f2h(v) for v in st.str_to_float(c["rows"])]
         if op == "column_ints":
             return _column_ints_impl(c)
         if op == "parse_missing":
@@ -606,9 +745,50 @@ def _int_text_value(t):
 
 def oracle(c):
     op = c["op"]
+    if op == "int_to_str":
+        return [str(c["n"])] if I64MIN <= c["n"] <= I64MAX else SKIP
+    if op == "join":
+        return c["sep"].join(c["strs"]) + (c["sep"] if c["keep_last"] else "")
+    if op == "split":
+        import re
+        return re.split("[" + re.escape("".join(c["seps"])) + "]", c["text"])
+    if op == "boollists":
+        return ["".join(str(v) for v in r) for r in c["rows"]] if all(0 <= v <= 9 for r in c["rows"] for v in r) else SKIP
+    if op == "boolcolumn":
+        return {"lines": ["%d\t%s" % (b, "".join(str(v) for v in l)) for b, l in zip(c["flags"], c["lists"])] + [""],
+                "b": list(c["flags"]), "l": c["lists"]}
+    if op in ("fparse_missing", "optcolumn"):
+        fl = []
+        for t in (c["rows"] if op == "fparse_missing" else c["floats"]):
+            if t in ("", "."):
+                fl.append("missing")
+                continue
+            d = parse_float_text(t)
+            if d is None or not math.isfinite(float(t)) or (float(t) != 0 and abs(float(t)) < 2.3e-308) or ("e" in t and abs(int(t.split("e")[1])) > 300):
+                return SKIP
+            fl.append(d)
+        if op == "fparse_missing":
+            return fl
+        o = []
+        for t in c["ints"]:
+            v = 0 if t in ("", ".") else _int_text_value(t)
+            if v is None or not (I64MIN <= v <= I64MAX):
+                return SKIP
+            o.append(v)
+        return {"o": o, "f": fl, "written": ["%d\tz" % v for v in o] + [""]}
+    if op == "matrix_parse":
+        ds = [[parse_float_text(t) for t in r] for r in c["cells"]]
+        if any(d is None or not math.isfinite(float(t)) or (float(t) != 0 and abs(float(t)) < 2.3e-308) for r, dr in zip(c["cells"], ds) for t, d in zip(r, dr)):
+            return SKIP
+        if any("e" in t and abs(int(t.split("e")[1])) > 300 for r in c["cells"] for t in r):
+            return SKIP
+        return {"data": ds, "rows": ["r%d" % i for i in range(len(ds))] if c["names"] else None,
+                "cols": ["c%d" % i for i in range(len(ds[0]))]}
+    if op == "reject":
+        return {"err": "encoding"}
     if op == "fmt":
         info = np.iinfo(np.dtype(c.get("dtype", "int64")))
-        if not c["ns"] or any(not (int(info.min) <= n <= int(info.max)) for n in c["ns"]):
+        if any(not (int(info.min) <= n <= int(info.max)) for n in c["ns"]):
             return SKIP
         return [str(n) for n in c["ns"]]
     if op == "parse_missing":
@@ -631,7 +811,7 @@ def oracle(c):
     if op in ("parse", "splitparse", "parse1", "column_ints"):
         rows = c["rows"] if op in ("parse", "column_ints") else (c["text"].split(",") if op == "splitparse" else [c["s"]])
         vals = [_int_text_value(t) for t in rows]
-        if not rows or any(v is None or not (I64MIN <= v <= I64MAX) for v in vals):
+        if (not rows and op != "parse") or any(v is None or not (I64MIN <= v <= I64MAX) for v in vals):
             return SKIP
         if op == "parse1":
             return vals[0] if c["s"][0] not in "+-" else SKIP
@@ -639,8 +819,6 @@ def oracle(c):
     if op == "roundtrip":
         return list(c["ns"])
     if op == "intlists":
-        if not any(c["rows"]):
-            return SKIP
         return [",".join(str(v) for v in r) + ("," if c["keep_last"] and r else "") for r in c["rows"]]
     if op == "fparse":
         ds = [parse_float_text(t) for t in c["rows"]]
@@ -677,10 +855,28 @@ def _float_rows_ok(got, decs):
     return True
 
 
+def _opt_float_rows_ok(got, exp):
+    if not isinstance(got, list) or len(got) != len(exp):
+        return False
+    for g, e in zip(got, exp):
+        if (g == "missing") != (e == "missing"):
+            return False
+        if e != "missing" and (e is None or ulps(float.fromhex(g), dec_to_float(e)) > ULP_TOL):
+            return False
+    return True
+
+
 def agree(c, got, exp):
     op = c["op"]
     if op == "fparse":
         return _float_rows_ok(got, exp)
+    if op == "fparse_missing":
+        return _opt_float_rows_ok(got, exp)
+    if op == "optcolumn":
+        return isinstance(got, dict) and "o" in got and got["o"] == exp["o"] and got["written"] == exp["written"] and _opt_float_rows_ok(got["f"], exp["f"])
+    if op == "matrix_parse":
+        return (isinstance(got, dict) and "data" in got and got["rows"] == exp["rows"] and got["cols"] == exp["cols"]
+                and len(got["data"]) == len(exp["data"]) and all(_float_rows_ok(g, e) for g, e in zip(got["data"], exp["data"])))
     if op == "fbatch":
         return isinstance(got, dict) and "whole" in got and got["whole"] == got["alone"] == got["reversed"]
     if op == "column":
@@ -701,6 +897,11 @@ def _decs_denote(decs, xs):
 def agree_model(c, got, m):
     if c["op"] == "fparse":
         return _float_rows_ok(got, m)
+    if c["op"] == "fparse_missing":
+        return _opt_float_rows_ok(got, m)
+    if c["op"] == "reject":
+        rejected = (m == {"err": "encoding"}) or (isinstance(m, list) and any(d is None for d in m))
+        return rejected == (got == {"err": "encoding"})
     if c["op"] == "froundtrip":
         # the model parses the text the implementation produced; its exact decimal must round to the double, and
         # the implementation's own result must be within the ulp tolerance of it
@@ -712,17 +913,25 @@ def agree_model(c, got, m):
 def agree_spec(c, s, exp):
     if c["op"] == "froundtrip":
         return _decs_denote(s, c["xs"])
+    if c["op"] == "reject":
+        return s is None or (isinstance(s, list) and any(d is None for d in s))
     return core.canon(s) == core.canon(exp)
 
 
 def model_request(c):
     if c["op"] == "froundtrip":
         return {"op": "fparse", "rows": [repr(float.fromhex(h)) for h in c["xs"]]}
+    if c["op"] == "int_to_str":
+        return {"op": "fmt", "ns": [c["n"]]}
+    if c["op"] == "reject":
+        return {"op": "parse" if c["kind"] == "int" else "fparse", "rows": c["rows"]}
     return c
 
 
 def finding_key(c, got, exp):
     op = c["op"]
+    if op == "fmt" and not c["ns"]:
+        return "ints_to_strings:empty-batch-raises"
     if op == "fmt" and isinstance(got, list) and len(got) == len(exp):
         bad = [(n, g) for n, g, e in zip(c["ns"], got, exp) if g != e]
         if bad and all(n == I64MIN for n, _ in bad):
@@ -746,7 +955,15 @@ def finding_key(c, got, exp):
     if op == "column":
         return "column:" + ("text" if isinstance(got, dict) and got.get("lines") != exp["lines"] else "parsed-value")
     if op == "intlists":
+        if isinstance(got, dict) and "err" in got and not any(c["rows"]):
+            return "ints_to_strings:empty-batch-raises"
         return "int_lists_to_strings:wrong-text"
+    if op == "int_to_str":
+        return "int_to_str:wrong-text"
+    if op in ("boolcolumn", "boollists"):
+        return "list_bool_column:cannot-be-written" if isinstance(got, dict) and "err" in got else op + ":wrong-result"
+    if op == "reject":
+        return "reject:not-a-number-read-as-a-value"
     return op + ":wrong-result"
 
 
